@@ -2,8 +2,9 @@
 model coq/C16/LoopCase.v `loop_case`).
 
 A case: {'init': [(kind, delay, id)], 'jobs': [(adv, err, [(kind, delay, id)])], 'n', 'bump', 'm', 'features'}
-kind 0 = promise job, 1 = generic job, 2 = timeout job.  Job i logs itself, moves the clock forward by adv ms,
-enqueues its list in order and returns Err iff err.
+kind 0 = promise job, 1 = generic job, 2 = timeout job, 3 = interval job (delay = period).  Job i logs itself, moves the
+clock forward by adv ms, enqueues its list in order and returns Err iff err.  case['stop']: ids of jobs that request a stop;
+case['cancel']: {job id: [tickets]} clock jobs whose cancellation token the job revokes (model: DeepLoopCase_C16.full_case).
 
 Structured stream: the enqueue graph is a DAG (children have larger ids) and every id is enqueued at most twice,
 so every run terminates; delays and clock advances are small so that `key == now` / `key < now` boundaries are hit
@@ -27,6 +28,7 @@ def generate(r):
     edge = r.random() < 0.15
     n = r.choice([2, 3, 4, 5, 6, 8, 10, 12])
     uses = [0] * n
+    intervals = r.choice([0, 0, 0.7, 1.5])      # interval jobs re-arm for ever: such runs end by cancel / stop / Err / poll limit
 
     def enq(lo):
         cands = [c for c in range(lo, n) if uses[c] < 2]
@@ -34,9 +36,9 @@ def generate(r):
             return None
         c = r.choice(cands[:4]) if r.random() < 0.7 else r.choice(cands)
         uses[c] += 1
-        k = _pick(r, [(4, 0), (2, 1), (3, 2)])
-        d = r.choice([0, 0, 1, 1, 2, 3, 5, 10, 20]) if k == 2 else 0
-        feat.add(('promise', 'generic', 'timeout')[k])
+        k = _pick(r, [(4, 0), (2, 1), (3, 2), (intervals, 3)])
+        d = r.choice([0, 0, 1, 1, 2, 3, 5, 10, 20]) if k == 2 else (r.choice([0, 1, 1, 2, 3, 5]) if k == 3 else 0)
+        feat.add(('promise', 'generic', 'timeout', 'interval')[k])
         return (k, d, c)
 
     init = [e for e in (enq(0) for _ in range(r.choice([1, 2, 2, 3, 4]))) if e]
@@ -63,10 +65,19 @@ def generate(r):
             jobs[i] = (jobs[i][0], False, jobs[i][2] + [(r.choice([0, 1, 2]), r.choice([0, 1, 4]), i)])
             if not any(c == i for _, _, c in init):
                 init.append((r.choice([0, 1, 2]), 0, i))
+    stop, cancel = set(), {}
+    if r.random() < 0.35:
+        for i in range(n):
+            if r.random() < 0.08:
+                stop.add(i)
+                feat.add('stop')
+            if r.random() < 0.3:
+                cancel[i] = [r.randrange(0, 2 * n + 3) for _ in range(r.choice([1, 1, 2, 3]))]
+                feat.add('cancel')
     np_ = r.choice([1, 2, 3, 5, 8, 50, 50, 50]) if not edge else r.choice([1, 1, 2, 3, 50])
     bump = r.choice([0, 1, 5, 1000, 1000])
     m = r.choice([1, 3, 50, 50])
-    case = {'init': init, 'jobs': jobs, 'n': np_, 'bump': bump, 'm': m, 'features': sorted(feat)}
+    case = {'init': init, 'jobs': jobs, 'stop': sorted(stop), 'cancel': cancel, 'n': np_, 'bump': bump, 'm': m, 'features': sorted(feat)}
     case['text'] = to_text(case)
     return case
 
@@ -77,16 +88,43 @@ def _e(e):
 
 def to_text(c):
     secs = [' '.join(_e(e) for e in c['init'])]
-    for adv, err, new in c['jobs']:
-        secs.append(' '.join(['%d' % adv, '1' if err else '0'] + [_e(e) for e in new]))
+    for i, (adv, err, new) in enumerate(c['jobs']):
+        extra = (['S'] if i in c.get('stop', []) else []) + ['C%d' % t for t in c.get('cancel', {}).get(i, [])]
+        secs.append(' '.join(['%d' % adv, '1' if err else '0'] + extra + [_e(e) for e in new]))
     return ';'.join(secs)
 
 
 def to_coq(c):
     def el(l):
         return '[' + '; '.join('(%d, %d, %d)' % e for e in l) + ']'
-    tbl = '[' + '; '.join('mkB %d %s %s' % (adv, 'true' if err else 'false', el(new)) for adv, err, new in c['jobs']) + ']'
-    return 'loop_case %s %s %d %d %d' % (tbl, el(c['init']), c['n'], c['bump'], c['m'])
+    def b(x):
+        return 'true' if x else 'false'
+    tbl = '[' + '; '.join('mkDB %d %s %s [%s] %s' % (adv, b(err), b(i in c.get('stop', [])),
+                                                     '; '.join('%d' % t for t in c.get('cancel', {}).get(i, [])), el(new))
+                          for i, (adv, err, new) in enumerate(c['jobs'])) + ']'
+    return 'full_case %s %s %d %d %d' % (tbl, el(c['init']), c['n'], c['bump'], c['m'])
+
+
+def from_text(text, n, bump, m):
+    """inverse of to_text (replay files)"""
+    secs = text.split(';')
+
+    def enq(t):
+        return tuple(int(x) for x in t.split(':'))
+    c = {'init': [enq(t) for t in secs[0].split()], 'jobs': [], 'stop': [], 'cancel': {}, 'n': n, 'bump': bump, 'm': m, 'features': []}
+    for i, sec in enumerate(secs[1:]):
+        w = sec.split()
+        new = []
+        for tok in w[2:]:
+            if tok == 'S':
+                c['stop'].append(i)
+            elif tok.startswith('C'):
+                c['cancel'].setdefault(i, []).append(int(tok[1:]))
+            else:
+                new.append(enq(tok))
+        c['jobs'].append((int(w[0]), w[1] == '1', new))
+    c['text'] = text
+    return c
 
 
 def mode(c):
